@@ -44,11 +44,18 @@ Qed.
 
 (** * Event statuses *)
 
+Definition cause_ev (c : cfg) (o : outcome) (fits : bool) : Prop :=
+  (o = OError /\ fits = false) \/ (o = OAbort /\ can_refuse c = true).
+
+Lemma cause_ev_weaken (c : cfg) (o : outcome) (f1 f2 : bool) :
+  cause_ev c o f1 -> (f1 = false -> f2 = false) -> cause_ev c o f2.
+Proof. intros [[Ho Hf]|H] Hw; [left; split; auto | right; exact H]. Qed.
+
 Lemma write_evstatus_spec (c : cfg) (a : atom) (s : st) A E :
   cfg_ok c = true -> Good c s KEvents A E ->
   match write_evstatus c a s with
   | Go s' => Good c s' KEvents A (E ++ [a]) /\ seen s' = seen s
-  | Halt o s' => o = OError /\ atom_fits c a = false /\ seen s' = seen s /\ exists E', Good c s' KEvents A E'
+  | Halt o s' => cause_ev c o (atom_fits c a) /\ seen s' = seen s /\ exists E', Good c s' KEvents A E'
   end.
 Proof.
   intros Hc G. pose proof G as (ds & pre & l & I & HA & HE). unfold write_evstatus.
@@ -61,18 +68,20 @@ Proof.
     assert (G1 : Good c s1 KEvents A E).
     { exists (ds ++ [desc_of pre KEvents l true]), None, []. split; [assumption|].
       rewrite totA_send, totE_send. split; assumption. }
+    destruct (refused c s1) eqn:Hrf.
+    { split; [right; split; [reflexivity | eapply refused_can; eassumption]|]. split; [assumption|]. exists E. assumption. }
     destruct (put (TAtom a) s1) as [s2|] eqn:Hp1; cbn [or_error].
     + destruct (OInv_push _ _ _ _ _ _ _ _ I1 Hp1) as [I2 Hs2]. split; [|congruence].
       exists (ds ++ [desc_of pre KEvents l true]), None, ([] ++ [a]). split; [assumption|].
       rewrite totA_push, totE_push, totA_send, totE_send, HA, HE. cbn [onA onE]. rewrite app_nil_r. split; reflexivity.
-    + split; [reflexivity|]. split; [eapply not_fits; eassumption|]. split; [assumption|]. exists E. assumption.
+    + split; [left; split; [reflexivity | eapply not_fits; eassumption]|]. split; [assumption|]. exists E. assumption.
 Qed.
 
 Lemma write_evstatuses_spec (c : cfg) (l : list atom) : forall (s : st) A E,
   cfg_ok c = true -> Good c s KEvents A E ->
   match write_evstatuses c l s with
   | Go s' => Good c s' KEvents A (E ++ l) /\ seen s' = seen s
-  | Halt o s' => o = OError /\ forallb (atom_fits c) l = false /\ seen s' = seen s /\
+  | Halt o s' => cause_ev c o (forallb (atom_fits c) l) /\ seen s' = seen s /\
                  exists E', Good c s' KEvents A E'
   end.
 Proof.
@@ -83,10 +92,10 @@ Proof.
     + destruct H as [G1 Hs1]. specialize (IH s1 _ _ Hc G1).
       destruct (write_evstatuses c rest s1) as [s2|o s2].
       * destruct IH as [G2 Hs2]. split; [|congruence]. rewrite <- app_assoc in G2. exact G2.
-      * destruct IH as (Ho & Hf & Hs2 & G2). split; [assumption|]. split; [|split; [congruence | assumption]].
-        cbn [forallb]. rewrite Hf. apply andb_false_r.
-    + destruct H as (Ho & Hf & Hs1 & G1). split; [assumption|]. split; [|split; assumption].
-      cbn [forallb]. rewrite Hf. reflexivity.
+      * destruct IH as (Ho & Hs2 & G2). split; [|split; [congruence | assumption]].
+        apply (cause_ev_weaken _ _ _ _ Ho). intros Hf. cbn [forallb]. rewrite Hf. apply andb_false_r.
+    + destruct H as (Ho & Hs1 & G1). split; [|split; assumption].
+      apply (cause_ev_weaken _ _ _ _ Ho). intros Hf. cbn [forallb]. rewrite Hf. reflexivity.
 Qed.
 
 (** * Resumption by event number *)
@@ -168,7 +177,8 @@ Lemma ev_loop_spec (c : cfg) (evs : list ev) (n : nat) : forall (s : st) A E,
   | Halt o s' => (exists E', Good c s' KEvents A E') /\
       ((o = OStatus /\ forallb (fun e => ev_size e <=? fresh_room c) evs = false) \/
        (o = OFuel /\ (n <= length (want c (seen s) evs))%nat /\
-        (pos s = fresh s -> (S n <= length (want c (seen s) evs))%nat)))
+        (pos s = fresh s -> (S n <= length (want c (seen s) evs))%nat)) \/
+       (o = OAbort /\ can_refuse c = true))
   end.
 Proof.
   induction n as [|n IH]; intros s A E Hc Hs G; cbn [ev_loop];
@@ -186,7 +196,7 @@ Proof.
        assert (Hin : In e evs) by (apply (want_in c (seen s)); rewrite H1; apply in_or_app; right; left; reflexivity);
        clear - Hin Hnf; induction evs as [|x xs IHx]; [destruct Hin|]; cbn [forallb];
        destruct Hin as [->|Hin]; [rewrite Hnf; reflexivity | rewrite (IHx Hin); apply andb_false_r].
-  - split; [eexists; eassumption|]. right. split; [reflexivity|]. split; [lia|].
+  - split; [eexists; eassumption|]. right. left. split; [reflexivity|]. split; [lia|].
     intros Hfs. rewrite H1, app_length. cbn [length].
     destruct w as [|w0 w']; [|cbn [length]; lia]. destruct (H7 eq_refl) as [P1 P2]. congruence.
   - destruct (send_chunk c s1 ds pre KEvents l Hc ltac:(discriminate) I) as (s2 & Hs2 & I2 & Hseen & Hfresh).
@@ -194,11 +204,14 @@ Proof.
     assert (G2 : Good c s2 KEvents A (E ++ map ev_atom w)).
     { exists (ds ++ [desc_of pre KEvents l true]), None, []. split; [assumption|].
       rewrite totA_send, totE_send. split; assumption. }
+    destruct (refused c s2) eqn:Hrf.
+    { split; [eexists; eassumption|]. right. right. split; [reflexivity | eapply refused_can; eassumption]. }
     specialize (IH s2 _ _ Hc Hs G2). rewrite Hseen, H3 in IH.
     destruct (ev_loop n c evs s2) as [s3|o s3].
     + rewrite H1, map_app, app_assoc. exact IH.
-    + destruct IH as [G3 [Hst|(Ho & Hn & Hfr)]]; split; try assumption; [left; assumption|].
-      right. split; [assumption|]. specialize (Hfr Hfresh). rewrite H1, app_length. cbn [length] in *. split; [lia|].
+    + destruct IH as [G3 [Hst|[(Ho & Hn & Hfr)|Hab]]]; split; try assumption;
+        [left; assumption | | right; right; assumption].
+      right. left. split; [assumption|]. specialize (Hfr Hfresh). rewrite H1, app_length. cbn [length] in *. split; [lia|].
       intros Hfs. destruct w as [|w0 w']; [|cbn [length]; lia].
       destruct (H7 eq_refl) as [P1 P2]. congruence.
 Qed.
@@ -213,7 +226,8 @@ Lemma report_events_spec (n : nat) (c : cfg) (stats : list atom) (evs : list ev)
   | Halt o s' => (exists E, Good c s' KEvents A E) /\
       ((o = OStatus /\ forallb (fun e => ev_size e <=? fresh_room c) evs = false) \/
        (o = OError /\ forallb (atom_fits c) stats = false) \/
-       (o = OFuel /\ (n <= length evs)%nat))
+       (o = OFuel /\ (n <= length evs)%nat) \/
+       (o = OAbort /\ can_refuse c = true))
   end.
 Proof.
   intros Hc Hs Hseen C. unfold report_events. destruct (has_events c).
@@ -231,9 +245,11 @@ Proof.
     + destruct (close_array c s4 KEvents _ _ Hc ltac:(discriminate) H4) as (s5 & E5 & Hs5 & C5).
       rewrite E5. cbn [or_error]. eexists. split; [exact C5|].
       unfold events_total. rewrite Hs3, Hs2, Hseen. reflexivity.
-    + destruct H4 as [G4 [Hst|(Ho & Hn & _)]]; (split; [assumption|]); [left; assumption|].
-      right. right. split; [assumption|]. pose proof (want_length c (seen s3) evs). lia.
-  - destruct H as (Ho & Hf & Hs3 & G3). split; [assumption|]. right. left. split; assumption.
+    + destruct H4 as [G4 [Hst|[(Ho & Hn & _)|Hab]]]; (split; [assumption|]);
+        [left; assumption | | right; right; right; assumption].
+      right. right. left. split; [assumption|]. pose proof (want_length c (seen s3) evs). lia.
+  - destruct H as (Ho & Hs3 & G3). split; [assumption|].
+    destruct Ho as [Ho|Ho]; [right; left; assumption | right; right; right; assumption].
 Qed.
 
 (** * The last message *)
@@ -298,6 +314,7 @@ Theorem respond_spec (n : nat) (c : cfg) (its : list item) (stats : list atom) (
         (forallb (item_fits c) its = false \/ forallb (fun e => ev_size e <=? fresh_room c) evs = false)
     | OError => Forall (fun d => d_more d = true) ds /\ forallb (atom_fits c) stats = false
     | OFuel => Forall (fun d => d_more d = true) ds /\ (n <= length evs)%nat
+    | OAbort => Forall (fun d => d_more d = true) ds /\ can_refuse c = true
     end.
 Proof.
   intros Hc Hs. unfold respond.
@@ -318,8 +335,9 @@ Proof.
       split; [exists A; split; assumption|]. split; [congruence | assumption].
     + destruct HE as [(E & G) Hcause]. destruct (Hout _ _ _ _ G) as (ds & Ho & Hsz & Hmore).
       exists ds. split; [assumption|]. split; [assumption|].
-      destruct Hcause as [[-> Hf]|[[-> Hf]|[-> Hf]]]; (split; [assumption|]); auto.
+      destruct Hcause as [[-> Hf]|[[-> Hf]|[[-> Hf]|[-> Hf]]]]; (split; [assumption|]); auto.
   - destruct HA as (Hs1 & (A & G) & Hcause). destruct (Hout _ _ _ _ G) as (ds & Ho & Hsz & Hmore).
     exists ds. split; [assumption|]. split; [assumption|].
-    destruct Hcause as [[-> Hf]|[-> Hf]]; (split; [assumption|]); [left; assumption | subst n; apply Nat.le_0_l].
+    destruct Hcause as [[-> Hf]|[[-> Hf]|[-> Hf]]]; (split; [assumption|]);
+      [left; assumption | subst n; apply Nat.le_0_l | assumption].
 Qed.
